@@ -179,7 +179,7 @@ class Ctx:
             o = os.path.join(bdir, "verif_%s_%s.o" % (name, os.path.basename(s)))
             objs.append(o)
             cc = "clang++ -std=c++17" if s.endswith(".cc") else "clang"
-            cmds.append("%s -g -O1 -DCARES_VERIF=1 -DHAVE_CONFIG_H=1 -DCARES_STATICLIB -DCARES_BUILDING_LIBRARY %s %s %s -c %s -o %s" %
+            cmds.append("%s -g -O1 -Wno-deprecated-declarations -DCARES_VERIF=1 -DHAVE_CONFIG_H=1 -DCARES_STATICLIB -DCARES_BUILDING_LIBRARY %s %s %s -c %s -o %s" %
                         (cc, san, inc, extra_flags or "", s, o))
         procs = [subprocess.Popen(c, shell=True, stdout=subprocess.PIPE, stderr=subprocess.STDOUT) for c in cmds]
         for p, c in zip(procs, cmds):
